@@ -1,4 +1,5 @@
 import GB.C19.Proofs
+import GB.C19.Join
 import GB.Generated.Facts
 /-
   C19 — property theorems.  `dispatch` is `WebBridge.ServeHTTP` (bridge.go, after fix D18),
@@ -151,6 +152,43 @@ theorem C19_mdquery_slice_in_range (param k : Bytes) (h : isMetaKey param k = tr
     rw [e1] at h2
     simp at h2
   · omega
+
+/-- **The metadata-query clause end to end** (transcoded WebSocket entry, for ALL queries and ALL header sets,
+    colliding names included): under every key the forwarder is handed first the query metadata of
+    `C19_mdquery` — the printable values of the valid `param[k]=v` entries, in query-map order — and then the
+    header values under that key: `metadata.Join(queryMD, headersToMD(r.Header))`.  Nothing is dropped and
+    nothing overwrites anything. -/
+theorem C19_mdquery_joined (param : Bytes) (q : Values) (hdr : MD) (k' : Bytes) :
+    GB.C07.MD.lookup (wsIncoming param q hdr) k' =
+      collect (if param.isEmpty then defaultParam else param) k' q ++ GB.C07.MD.lookup (GB.C07.headersToMD hdr) k' := by
+  unfold wsIncoming
+  rw [lookup_join _ _ _ (nodup_queryMD param q) (nodup_headersToMD hdr), ← mdLookup_eq, C19_mdquery]
+
+/-- … in particular no query metadata entry is ever lost, whatever headers the handshake carries. -/
+theorem C19_mdquery_never_lost (param : Bytes) (q : Values) (hdr : MD) (k' v : Bytes)
+    (h : v ∈ collect (if param.isEmpty then defaultParam else param) k' q) :
+    v ∈ GB.C07.MD.lookup (wsIncoming param q hdr) k' := by
+  rw [C19_mdquery_joined]
+  exact List.mem_append_left _ h
+
+/-- … and every header value is still there, after the query values. -/
+theorem C19_headers_kept (param : Bytes) (q : Values) (hdr : MD) (k' v : Bytes)
+    (h : v ∈ GB.C07.MD.lookup (GB.C07.headersToMD hdr) k') :
+    v ∈ GB.C07.MD.lookup (wsIncoming param q hdr) k' := by
+  rw [C19_mdquery_joined]
+  exact List.mem_append_right _ h
+
+/-- Seeded variant C19-m6 (`maps.Copy` instead of `metadata.Join`), kernel-checked negative witness:
+    `?_metadata[authorization]=q` next to an `Authorization: h` header — the overwrite variant hands the forwarder
+    only `h`; the real join hands it `q, h`; without the colliding header both agree. -/
+theorem C19_mdquery_overwrite_fails :
+    let q : Values := [([95,109,101,116,97,100,97,116,97,91,97,117,116,104,111,114,105,122,97,116,105,111,110,93], [[113]])]
+    let hdr : MD := [([65,117,116,104,111,114,105,122,97,116,105,111,110], [[104]])]
+    let key : Bytes := [97,117,116,104,111,114,105,122,97,116,105,111,110]
+    GB.C07.MD.lookup (wsIncomingCopy [] q hdr) key = [[104]] ∧
+    GB.C07.MD.lookup (wsIncoming [] q hdr) key = [[113], [104]] ∧
+    wsIncomingCopy [] q [] = wsIncoming [] q [] := by
+  decide
 
 /-! Facts ties: the constants of the model are the ones in the sources now (regenerated on every run). -/
 
